@@ -13,12 +13,17 @@ git -C "$WT" checkout -q -- . ; git -C "$WT" clean -fdq
 LOG=$DST/confirm.log; : > "$LOG"
 # demonstration files: *_test.go go into the package named in RUN.txt / by their package clause
 place_demo() {
-  for f in "$DST"/demo/*_test.go; do
-    [ -f "$f" ] || continue
-    pkg=$(grep -m1 '^package ' "$f" | awk '{print $2}' | sed 's/_test$//')
-    dir=$(grep -rl --include=*.go "^package $pkg\$" "$WT/pkg" "$WT/cmd" 2>/dev/null | head -1 | xargs dirname)
-    hint=$(grep -o 'pkg/[a-z_/]*' "$DST/demo/RUN.txt" 2>/dev/null | head -1)
-    [ -n "$hint" ] && [ -d "$WT/$hint" ] && dir="$WT/$hint"
+  find "$DST/demo" -name '*_test.go' | while read -r f; do
+    rel=${f#$DST/demo/}
+    case "$rel" in
+      pkg/*|cmd/*) dir="$WT/$(dirname "$rel")" ;;
+      *)
+        pkg=$(grep -m1 '^package ' "$f" | awk '{print $2}' | sed 's/_test$//')
+        dir=$(grep -rl --include=*.go "^package $pkg\$" "$WT/pkg" "$WT/cmd" 2>/dev/null | head -1 | xargs dirname)
+        hint=$(grep -o 'pkg/[a-z_/]*' "$DST/demo/RUN.txt" 2>/dev/null | head -1)
+        [ -n "$hint" ] && [ -d "$WT/${hint%/}" ] && dir="$WT/${hint%/}"
+        ;;
+    esac
     cp "$f" "$dir/"; echo "$dir"
   done | sort -u
 }
